@@ -1,4 +1,8 @@
 pub mod c01;
+pub mod c16;
+pub mod c17;
+pub mod c19;
+pub mod c20;
 pub mod scenes;
 pub mod c04;
 pub mod c07;
@@ -6,6 +10,8 @@ pub mod c08;
 pub mod c09;
 pub mod c10;
 pub mod c11;
+pub mod c12;
+pub mod c13;
 pub mod c14;
 pub mod c15;
 
@@ -21,8 +27,14 @@ pub fn dispatch(ctx: &Ctx) -> Option<Outcome> {
         "C09" => Some(c09::run(ctx)),
         "C10" => Some(c10::run(ctx)),
         "C11" => Some(c11::run(ctx)),
+        "C12" => Some(c12::run(ctx)),
+        "C13" => Some(c13::run(ctx)),
         "C14" => Some(c14::run(ctx)),
         "C15" => Some(c15::run(ctx)),
+        "C16" => Some(c16::run(ctx)),
+        "C17" => Some(c17::run(ctx)),
+        "C19" => Some(c19::run(ctx)),
+        "C20" => Some(c20::run(ctx)),
         _ => None,
     }
 }
